@@ -11,6 +11,7 @@ import (
 	"go/token"
 	"os"
 	"path/filepath"
+	"strconv"
 	"strings"
 )
 
@@ -21,11 +22,13 @@ const (
 	tBool
 	tNat
 	tItem
+	tByte
 )
 
 type fenv struct {
 	vars   map[string]gty
 	consts map[string]string // ExpressionType constants -> value
+	funcs  map[string]bool   // already translated functions that may be called
 	fname  string
 }
 
@@ -39,6 +42,8 @@ func goType(e ast.Expr, fname string) gty {
 			return tBool
 		case "int64", "int":
 			return tNat
+		case "byte":
+			return tByte
 		}
 	case *ast.SelectorExpr:
 		if t.Sel.Name == "ExpressionType" {
@@ -63,6 +68,9 @@ func (v *fenv) expr(e ast.Expr) (string, gty) {
 		if !ok {
 			die("funcs: %s: unknown identifier %s", v.fname, x.Name)
 		}
+		if t == tByte {
+			return "(b2n " + x.Name + ")", tByte
+		}
 		return x.Name, t
 	case *ast.BasicLit:
 		if x.Kind == token.STRING {
@@ -75,9 +83,29 @@ func (v *fenv) expr(e ast.Expr) (string, gty) {
 		if x.Kind == token.INT {
 			return x.Value, tNat
 		}
+		if x.Kind == token.CHAR {
+			c, _, _, err := strconv.UnquoteChar(x.Value[1:len(x.Value)-1], '\'')
+			if err != nil || c > 255 {
+				die("funcs: %s: unsupported character literal %s", v.fname, x.Value)
+			}
+			return fmt.Sprintf("%d%%N", c), tByte
+		}
 	case *ast.SelectorExpr:
 		if c, ok := v.consts[x.Sel.Name]; ok {
 			return coqStr(c), tStr
+		}
+		if x.Sel.Name == "ch" { // the lexer's current byte
+			if t, ok := v.vars["ch"]; ok && t == tByte {
+				return "(b2n ch)", tByte
+			}
+		}
+	case *ast.IndexExpr:
+		if id, ok := x.X.(*ast.Ident); ok && id.Name == "especialChars" {
+			a, t := v.expr(x.Index)
+			if t != tByte {
+				die("funcs: %s: especialChars indexed by a non-byte", v.fname)
+			}
+			return "(existsb (N.eqb " + a + ") special_chars)", tBool
 		}
 	case *ast.CallExpr:
 		if id, ok := x.Fun.(*ast.Ident); ok && id.Name == "len" && len(x.Args) == 1 {
@@ -86,6 +114,11 @@ func (v *fenv) expr(e ast.Expr) (string, gty) {
 				die("funcs: %s: len of a non-sequence", v.fname)
 			}
 			return "(List.length " + a + ")", tNat
+		}
+		if id, ok := x.Fun.(*ast.Ident); ok && v.funcs[id.Name] && len(x.Args) == 1 {
+			if arg, ok := x.Args[0].(*ast.Ident); ok && v.vars[arg.Name] == tByte {
+				return "(go_" + id.Name + " " + arg.Name + ")", tBool
+			}
 		}
 	case *ast.UnaryExpr:
 		if x.Op == token.NOT {
@@ -130,6 +163,8 @@ func (v *fenv) expr(e ast.Expr) (string, gty) {
 			return cmp("str_eqb", "str_ltb", "str_leb")
 		case tNat:
 			return cmp("Nat.eqb", "Nat.ltb", "Nat.leb")
+		case tByte:
+			return cmp("N.eqb", "N.ltb", "N.leb")
 		case tBool:
 			if x.Op == token.EQL {
 				return fmt.Sprintf("(Bool.eqb %s %s)", a, b), tBool
@@ -191,8 +226,8 @@ func writeFuncs(repo, out string) {
 	var b strings.Builder
 	b.WriteString("(* GENERATED by /verif/translator (funcs.go) from core/table.go; do not edit. *)\n")
 	b.WriteString("From Coq Require Import List Bool Arith.\nFrom Coq Require Import Strings.Byte Strings.String.\n")
-	b.WriteString("From Minidyn Require Import Base.Str Base.FMap Model.Value.\nImport ListNotations.\nLocal Open Scope bool_scope.\n\n")
-	tyName := map[gty]string{tStr: "str", tBool: "bool", tNat: "nat", tItem: "item"}
+	b.WriteString("From Coq Require Import NArith.\nFrom Minidyn Require Import Base.Str Base.FMap Model.Value Model.Token Gen.Tables.\nImport ListNotations.\nLocal Open Scope bool_scope.\n\n")
+	tyName := map[gty]string{tStr: "str", tBool: "bool", tNat: "nat", tItem: "item", tByte: "byte"}
 	for _, name := range []string{"afterStartKey", "shouldReturnNextKey", "shouldCountItem", "shouldBreakPage"} {
 		var fd *ast.FuncDecl
 		for _, d := range f.Decls {
@@ -209,7 +244,7 @@ func writeFuncs(repo, out string) {
 		if goType(fd.Type.Results.List[0].Type, name) != tBool {
 			die("funcs: %s: expected a boolean result", name)
 		}
-		env := &fenv{vars: map[string]gty{}, consts: consts, fname: name}
+		env := &fenv{vars: map[string]gty{}, consts: consts, funcs: map[string]bool{}, fname: name}
 		params := []string{}
 		for _, p := range fd.Type.Params.List {
 			t := goType(p.Type, name)
@@ -220,6 +255,49 @@ func writeFuncs(repo, out string) {
 		}
 		body := env.stmts(fd.Body.List)
 		fmt.Fprintf(&b, "Definition go_%s %s : bool :=\n  %s.\n\n", name, strings.Join(params, " "), body)
+	}
+	// lexer.go: character classes
+	lx := parseFile(filepath.Join(repo, "interpreter", "language", "lexer.go"))
+	done := map[string]bool{}
+	for _, name := range []string{"isLetter", "isIdentifierLetter"} {
+		var fd *ast.FuncDecl
+		for _, d := range lx.Decls {
+			if x, ok := d.(*ast.FuncDecl); ok && x.Recv == nil && x.Name.Name == name {
+				fd = x
+			}
+		}
+		if fd == nil || len(fd.Type.Params.List) != 1 || len(fd.Type.Params.List[0].Names) != 1 {
+			die("funcs: lexer.go: function %s(ch byte) bool not found", name)
+		}
+		pn := fd.Type.Params.List[0].Names[0].Name
+		if goType(fd.Type.Params.List[0].Type, name) != tByte {
+			die("funcs: %s: expected a byte parameter", name)
+		}
+		env := &fenv{vars: map[string]gty{pn: tByte}, consts: consts, funcs: done, fname: name}
+		fmt.Fprintf(&b, "Definition go_%s (%s : byte) : bool :=\n  %s.\n\n", name, pn, env.stmts(fd.Body.List))
+		done[name] = true
+	}
+	// the loop condition of skipWhitespace, as a predicate on the current byte
+	for _, d := range lx.Decls {
+		if x, ok := d.(*ast.FuncDecl); ok && x.Recv != nil && x.Name.Name == "skipWhitespace" {
+			if len(x.Body.List) != 1 {
+				die("funcs: skipWhitespace: expected a single loop")
+			}
+			fs, ok := x.Body.List[0].(*ast.ForStmt)
+			if !ok || fs.Init != nil || fs.Post != nil || fs.Cond == nil {
+				die("funcs: skipWhitespace: expected `for cond { ... }`")
+			}
+			env := &fenv{vars: map[string]gty{"ch": tByte}, consts: consts, funcs: done, fname: "skipWhitespace"}
+			c, t := env.expr(fs.Cond)
+			if t != tBool {
+				die("funcs: skipWhitespace: non-boolean loop condition")
+			}
+			fmt.Fprintf(&b, "Definition go_isWhitespace (ch : byte) : bool :=\n  %s.\n\n", c)
+			done["skipWhitespace"] = true
+		}
+	}
+	if !done["skipWhitespace"] {
+		die("funcs: lexer.go: skipWhitespace not found")
 	}
 	for _, c := range []string{"ExpressionTypeKey", "ExpressionTypeFilter", "ExpressionTypeConditional"} {
 		v, ok := consts[c]
